@@ -87,6 +87,13 @@ CLAIMED = {
                  "and checked by the twin oracle, not proved). 'Reading never modifies caller data' is snapshot-checked only (aliasing is not in the model). Densify's lookup table is shared by all environments of an Environments.dense() call "
                  "(read-order dependent across environments) - not covered by single-environment histories.",
             technique="Coq proof (generator state machine invariant) + extracted-model correspondence + twin-pipeline oracle", design="§5 C04"),
+ "C06": dict(text="Coq theorems (C06/Props.v): required_sound - over the definitions regenerated on every run from SequentialCB._required and _results.should_pred, for every mode of the finite domain "
+                  "learn x eval x has_score x record flags (vm_compute lifted by forallb_forall) each field the evaluation loop dereferences is demanded by _required (a source edit that lets the loop predict without 'actions' breaks the proof); "
+                  "on_policy_step / off_policy_step / one_row_per_interaction - the trace and rows of the loop over an abstract learner. A recording learner and generated environments check the real evaluator for every learn x eval x record "
+                  "subset x field subset, batched (per-row fallback) or not, against the environment data, incl. the IPS transform and rejection of environments lacking needed fields.",
+            note="Trusted: Coq kernel, translator (boolean fragment over mode codes, fails closed), extraction+driver, harness. The loop model is an abstraction of _results for the on/on and off/on modes; SafeLearner (C15), OpeRewards, BatchSafe/Unbatch and Finalize are used as they are; "
+                 "dr/dm need vowpalwabbit and are outside the property; a missing logged probability counts as 1 (by the code's own design).",
+            technique="Coq proof over translator-generated mode flags (finite sweep) + recording-learner oracle", design="§5 C06"),
 }
 NA_REASON = "check not built yet in this revision (planned, see DESIGN.md §8); no claim is made"
 def main():
